@@ -170,6 +170,9 @@ func callGFunction(L *LState, tailcall bool) bool {
 	// the bottom frame of a coroutine (a Go function tail-called by it, or a Go function that is
 	// the coroutine's body): its results end the coroutine
 	if L.Parent != nil && L.stack.Sp() == 1 {
+		// no instruction of this thread follows: look at the context here (a body that ends with
+		// return pcall(work) must not end the coroutine normally after a swallowed cancellation)
+		pollContextAfterGFunction(L)
 		switchToParentThread(L, wantret, false, true)
 		return true
 	}
